@@ -38,6 +38,9 @@ def run(prog, R, tier="quick", only_rule=None):
     c12e(prog, R)
     from rules.props import c11
     c11.c11c(prog, R, rid="C12.f")
+    # a ranged scan from either end clamps every freshly loaded block on both sides
+    from rules.props import c03
+    c03.c03f(prog, R, rid="C12.g")
 
 
 def arith_skeleton(body, drop_methods=()):
